@@ -429,7 +429,7 @@ class C19Quotient(QuotientWorld):
 SPEC = PropSpec(
     prop="C19",
     scenarios=[(6, C19Struct), (2, C19Cuckoo), (2, C19Quotient)],
-    runs={"quick": 10000, "thorough": 400000},
+    runs={"quick": 16000, "thorough": 400000},
     rule=("every world's history is interrupted at seeded points: the full observable state is captured (exports over "
           "bytes/hex, counters, bucket table, get_hashes + metadata print, tracking tables, the backing file of on-disk "
           "filters), a seeded batch of read-only calls runs (check / in with present and absent str and bytes keys, "
